@@ -71,8 +71,25 @@ for c in req.get("cases", []):
             row["number"] = int(an.get_space_group_number())
             conv = an.get_conventional_system()
             row.update(system_out(conv, an.get_wyckoff_letters_conventional(), an.get_equivalent_atoms_conventional()))
+            # call history on the one analyzer object: the reported parameters and the flag must not depend on what
+            # was asked before (id % 3: 0 = parameters first; 1 = id and parameter-less sets first; 2 = flag first,
+            # parameters, parameter-less sets, parameters again -- the LAST answer is the one examined)
+            hist = c["history"] if c.get("history") is not None else c["id"] % 3
+            row["history"] = hist
+            if hist == 1:
+                an.get_material_id()
+                an.get_wyckoff_sets_conventional(return_parameters=False)
+            elif hist == 2:
+                flag_first = bool(an.get_has_free_wyckoff_parameters())
+                try:
+                    an.get_wyckoff_sets_conventional(return_parameters=True)
+                    an.get_wyckoff_sets_conventional(return_parameters=False)
+                except ValueError:
+                    pass
             row.update(solve(lambda: an.get_wyckoff_sets_conventional(return_parameters=True)))
             row["flag"] = bool(an.get_has_free_wyckoff_parameters())
+            if hist == 2 and flag_first != row["flag"]:
+                row["flag_unstable"] = True
             row["letters_original"] = sorted(set(str(l) for l in an.get_wyckoff_letters_original()))
             want = c.get("direct")
             if want == "auto":   # only when the normalizer search moved the target letter away (or the call failed)
